@@ -129,9 +129,22 @@ theorem C01_reader_delivers_at_most_received (fs : List (DFrame α)) :
     (((parse none fs).1.map List.length).sum) ≤ (fs.map DFrame.size).sum := by
   simpa [stLen] using C01_reader_no_fabricated_bytes fs none
 
+/-- **A framing error is final**: once the reader has failed on a prefix,
+    nothing that follows is delivered (no resynchronisation on later frames) -/
+theorem C01_reader_error_final (st : RState α) (fs gs : List (DFrame α)) (e : PErr)
+    (h : (parse st fs).2 = .error e) : parse st (fs ++ gs) = parse st fs := by
+  rw [parse_append]
+  rcases hp : parse st fs with ⟨ms, r⟩
+  rw [hp] at h
+  simp only at h
+  subst h
+  rfl
+
 -- non-vacuity: a 5-byte message under windows 2 then 3 (chunkMax 2)
 example : (pump 2 2 (Snd.start [1,2,3,4,5])).1 = [.env 5 [1,2]] := by decide
 example : (parse none [DFrame.env 5 [1,2], .more [3,4], .more [5]]).1 = [[1,2,3,4,5]] := by decide
+-- an error is reachable: continuation without an envelope
+example : (parse (α := Nat) none [.more [1], .env 1 [2]]) = ([], .error .noEnvelope) := rfl
 -- three messages, the middle one empty, chunkMax 2: five frames, three messages back
 example : [[1,2,3],[],[4]].flatMap (sendAll 2) =
     [DFrame.env 3 [1,2], .more [3], .env 0 [], .env 1 [4]] := by decide
